@@ -320,6 +320,33 @@ def _digest_main(res, unit, out, diags, raw):
             fn_id = fn_r.fn_id
         ident = "%s/%s/%s: %s" % (res.name, fn_id, kind, " @ ".join(parts))
         res.failures.append(Failure(fn_id, kind, ident, msg, d.get("rendered", ""), spans))
+    # A function whose text no longer matches a splice of the template (an outline anchor, a proof-hint anchor or a named
+    # loop header is gone) is verified WITHOUT that piece. Verus accepts some constructs silently without giving them a
+    # meaning (format!, comparisons of str, ..) and a proof that lost its hints or invariants can fail although the fact is
+    # true, so a failure inside such a function is "could not decide", never a violation.
+    miss = {}
+    for m in getattr(unit, "missing_outlines", []):
+        fid, _, lab = m.partition("/")
+        miss.setdefault(fid, []).append(lab)
+    # the same for macros Verus accepts as opaque values (their result is unconstrained): a function that (still or newly)
+    # contains one outside an outline cannot fail for a semantic reason we could name
+    OPAQUE = re.compile(r"\b(format|write|writeln|format_args|concat)\s*!")
+    for r in unit.regions:
+        if r.kind == "fn" and r.start is not None and r.fn_id not in miss:
+            body = re.sub(r"/\*@<?\d+>?\*/", "", data[r.start:r.end].decode("utf-8", "replace"))
+            body = re.sub(r"//[^\n]*", "", body)
+            mm = OPAQUE.search(body)
+            if mm:
+                miss[r.fn_id] = ["the body contains the macro %s!, which Verus accepts without giving its result a meaning" % mm.group(1)]
+    if miss:
+        keep = []
+        for f in res.failures:
+            if f.fn_id in miss:
+                res.unproven.append((f.fn_id, "%s could not be decided: the text of %s no longer matches the template (%s), so it was verified "
+                                     "without that contract piece" % (f.ident[:140], f.fn_id, "; ".join(miss[f.fn_id])[:160])))
+            else:
+                keep.append(f)
+        res.failures = keep
     if others:
         d = others[0]
         res.status = "undecided"
